@@ -19,16 +19,22 @@ pub fn run(seed: u64, tier: &str, out: &mut Out) {
         // independent bookkeeping for the oracle: current tab width, texts as set, what the custom key writes
         let (mut tw, mut msg0, mut pfx0, mut key0) = (8usize, String::new(), String::new(), String::new());
         const KEYS: [&str; 4] = ["x\ty", "a\tb\tc", "\t\t", "no tab"];
-        let mut set_style = |pb: &ProgressBar, k: usize| { let text = KEYS[k]; pb.set_style(ProgressStyle::with_template("a\tb {prefix}|{msg}|{k}").unwrap().with_key("k", move |_: &ProgressState, w: &mut dyn std::fmt::Write| { w.write_str(text).unwrap() })); };
+        // the custom key writes its text in one piece, character by character, or through format arguments
+        let mut set_style = |pb: &ProgressBar, k: usize, mode: u64| { let text = KEYS[k]; pb.set_style(ProgressStyle::with_template("a\tb {prefix}|{msg}|{k}").unwrap().with_key("k", move |_: &ProgressState, w: &mut dyn std::fmt::Write| {
+            match mode { 0 => w.write_str(text).unwrap(), 1 => for c in text.chars() { w.write_char(c).unwrap() }, _ => for c in text.chars() { write!(w, "{}", c).unwrap() } } })); };
+        let mut cur_k = 0usize;;
         for _ in 0..k {
-            match rng.below(5) {
+            match rng.below(6) {
+                // a style derived from the bar's current one (`style().template(..)`): same keys, template parsed anew
+                5 if has_style => { case += &format!(" ; style {cur_k}"); let st = pb.style().template("a\tb {prefix}|{msg}|{k}").unwrap(); pb.set_style(st); }
+                5 => {}
                 0 | 1 => { let w = *rng.pick(&[0usize, 0, 1, 2, 4, 8, 13]); case += &format!(" ; tw {w}"); pb.set_tab_width(w); tw = w; }
-                2 => { let k = rng.below(4) as usize; case += &format!(" ; style {k}"); has_style = true; set_style(&pb, k); key0 = KEYS[k].to_string(); }
+                2 => { let k = rng.below(4) as usize; case += &format!(" ; style {k}"); has_style = true; set_style(&pb, k, rng.below(3)); key0 = KEYS[k].to_string(); cur_k = k; }
                 3 => { let t = *rng.pick(&texts); case += &format!(" ; msg {}", cps(t)); pb.set_message(t); msg0 = t.to_string(); }
                 _ => { let t = *rng.pick(&texts); case += &format!(" ; prefix {}", cps(t)); pb.set_prefix(t); pfx0 = t.to_string(); }
             }
         }
-        if !has_style { case += " ; style 0"; set_style(&pb, 0); key0 = KEYS[0].to_string(); }
+        if !has_style { case += " ; style 0"; set_style(&pb, 0, rng.below(3)); key0 = KEYS[0].to_string(); }
         { let mut st = rec.st.lock().unwrap(); st.ops.clear(); }
         pb.tick();
         let st = rec.st.lock().unwrap();
